@@ -85,14 +85,21 @@ pub fn gen_hist(t: &mut Tape, ctx: &mut Ctx, prop: &str, hc: &HistCfg) -> Option
 		None
 	} else {
 		Some(match codec {
-			Codec::Xz => 1 + t.below(6) as u8,
+			// (levels above 9 must be clipped to 9 by the crate; xz -9 reserves ~700 MB per encoder, so rarely)
+			Codec::Xz => {
+				if t.chance(12) {
+					*t.pick(&[9u8, 10, 200, 254])
+				} else {
+					1 + t.below(6) as u8
+				}
+			}
 			Codec::Zstandard => *t.pick(&[1u8, 3, 9, 15, 19, 22, 100, 254]),
 			_ => *t.pick(&[1u8, 2, 5, 9, 10, 200, 254, 255]),
 		})
 	};
 	// xz above 6 and zstd ultra levels need hundreds of MB per encoder
 	let level = match (codec, level) {
-		(Codec::Xz, Some(l)) => Some(l.min(6)),
+		(Codec::Xz, Some(l)) if big => Some(l.min(6)),
 		(Codec::Zstandard, Some(l)) if l > 19 => Some(if big { 19 } else { l }),
 		(c, l) => {
 			let _ = c;
